@@ -412,6 +412,53 @@ func runC02(r *engine.Run) {
 		}
 	})
 
+	// ---- a frame kept by value while the variable it was decoded into receives the next frame: the kept
+	// frame still carries its own content and validates against its own MIC
+	r.PartDims("kept-frame/receiver-reused", []string{"frame A: shape 6", "frame B: shape 6", "direction:2", "version:2"}, uint64(len(shapes)*len(shapes)*4), func(c *engine.Case) {
+		i := c.Index
+		sa, sb := shapes[i%uint64(len(shapes))], shapes[(i/uint64(len(shapes)))%uint64(len(shapes))]
+		i /= uint64(len(shapes) * len(shapes))
+		uplink := i%2 == 1
+		m := base
+		m.v11 = i/2 == 1
+		wireOf := func(s shape, fcnt uint32) ([]byte, [4]byte, bool) {
+			f, p := mk(s, uplink, false, 0x01020304, fcnt)
+			if err := libSetMIC(p, uplink, m); err != nil {
+				return nil, [4]byte{}, false
+			}
+			w, err := p.MarshalBinary()
+			want, _ := specMIC(f, m)
+			return w, want, err == nil
+		}
+		wa, micA, ok1 := wireOf(sa, 5)
+		wb, _, ok2 := wireOf(sb, 6)
+		if !ok1 || !ok2 {
+			c.Outcome("kept-frame/not-encodable")
+			return
+		}
+		c.Eval()
+		var phy lorawan.PHYPayload
+		if err := phy.UnmarshalBinary(wa); err != nil {
+			c.Fail("kept-frame/decode", err.Error(), nil)
+			return
+		}
+		kept := phy
+		if err := phy.UnmarshalBinary(wb); err != nil {
+			c.Fail("kept-frame/decode", err.Error(), nil)
+			return
+		}
+		c.NonTrivial()
+		if [4]byte(kept.MIC) != micA {
+			c.Outcome("kept-frame/mic-field-differs(see C02 set part)")
+		}
+		if mp, ok := kept.MACPayload.(*lorawan.MACPayload); ok {
+			mp.FHDR.FCnt = 5
+		}
+		if ok, err := libValidateMIC(&kept, uplink, m); err != nil || !ok {
+			c.Fail("kept-frame/validate-after-receiver-reuse", fmt.Sprintf("frame %x decoded and kept by value; after %x was decoded into the same variable the kept frame gives Validate=%v err=%v (v11=%v uplink=%v)", wa, wb, ok, err, m.v11, uplink), nil)
+		}
+	})
+
 	// ---- frames whose correct MIC is ffffffff / 00000000 (witness.go): set, validated, and validated after the wire
 	r.Part("conspicuous-mic-value", 1+uint64(len(witnessDownlink)), func(c *engine.Case) {
 		w := witnessUplink
@@ -591,6 +638,10 @@ func runC02(r *engine.Run) {
 				DevAddr: uint32(t[4])<<24 | uint32(t[3])<<16 | uint32(t[2])<<8 | uint32(t[1]), FCnt: mp.FHDR.FCnt, FKey: m.fKey, SKey: m.sKey}, msg)
 			if g.MType < 2 || g.MType > 5 {
 				continue
+			}
+			// the receive buffer is used for the next packet: the decoded frame is a value of its own
+			for k := range t {
+				t[k] ^= 0xA5
 			}
 			okv, err := libValidateMIC(&q, qUp, m)
 			if err != nil {
